@@ -61,7 +61,7 @@ def case_strategy(draw):
             final_b.append(t)
     # T3: the original tail with one keyword dropped or duplicated
     edit = draw(st.tuples(st.integers(0, 50), st.integers(0, 50), st.booleans()))
-    unit = draw(st.sampled_from(["METRIC", "METRIC", "FIELD", "LAB"]))
+    unit = draw(st.sampled_from(["METRIC", "METRIC", "FIELD", "LAB", "PVT-M"]))
     return {"unit": unit, "prefix": blocks, "open": openkw, "time_a": ta, "tail_a": tail_a, "time_b": tb, "tail_b": tail_b,
             "final_b": final_b, "edit": list(edit)}
 
